@@ -14,9 +14,9 @@ mv "$DEMO" /tmp/seed-$NAME-demo.go
 echo "== suite with change"; go build ./... && go test -vet=off -count=1 ./... 2>&1 | grep -v "no test files" ; S=${PIPESTATUS[0]}
 cp /tmp/seed-$NAME-demo.go "$DEMO"
 echo "== demo with change"; go test -vet=off -count=1 -run 'TestSeededDemo$' $PKG > /tmp/seed-$NAME-with.txt 2>&1; W=$?; tail -5 /tmp/seed-$NAME-with.txt
-git stash -q
+git apply -R /tmp/seed-$NAME.diff
 echo "== demo without change"; go test -vet=off -count=1 -run 'TestSeededDemo$' $PKG > /tmp/seed-$NAME-without.txt 2>&1; WO=$?; tail -3 /tmp/seed-$NAME-without.txt
-git stash pop -q
+git apply /tmp/seed-$NAME.diff
 echo "suite=$S demo_with=$W demo_without=$WO"
 if [ $S -eq 0 ] && [ $W -ne 0 ] && [ $WO -eq 0 ]; then
   D=/verif/seeded/$NAME; mkdir -p $D
